@@ -644,11 +644,26 @@ def import_nolocation():
     return sc, Info(schemas={'f0.xsd': f0, 'f1.xsd': f1}, names=['f0.xsd', 'f1.xsd'], edges={0: [], 1: []}, start=start, opts=[ABSENT, 'f0.xsd', 'f1.xsd'], nfiles=2, slots=0)
 
 
+def s_shapes(tier='quick'):
+    """content models other than "a sequence directly under the complexType": a choice or an xs:all as the content model, an
+    xs:annotation among the particles, a choice directly under xs:extension; occurrence of one member symbolic"""
+    mn = Selector('member_min', [ABSENT, '0', '1'])
+    top_choice = CT('TopChoice', Choice([El('a', 'xs:string'), El('b', 'xs:int')]))
+    top_all = CT('TopAll', All([El('x', 'xs:string'), El('y', 'xs:int', mn)]), attrs=[Attr('k', 'xs:string')])
+    annotated = CT('Annotated', Seq([Note('about the members'), El('m', 'xs:string'), Note('between'), El('n', 'xs:int', mn)]))
+    ext_choice = CT('ExtChoice', Choice([El('p', 'xs:string'), El('q', 'xs:long')]), base='t:TopAll')
+    sch = Schema(NS1, [top_choice, top_all, annotated, ext_choice], prefixes={'t': NS1})
+    sc = Scenario('S-shapes', {'a.xsd': sch}, 'a.xsd', [mn])
+    return sc, Info(schemas={'a.xsd': sch}, subjects=[('a.xsd', top_choice), ('a.xsd', top_all), ('a.xsd', annotated)],
+                    derived=[('a.xsd', ext_choice, ('a.xsd', top_all))], anon=[], simple=[], bases={'TopAll': None, 'ExtChoice': ('a.xsd', top_all)})
+
+
 def s_typenames(tier='quick'):
     """the NAME of a user type, used both where it is declared and where it is referenced (type=, element ref=), over
     spellings that PascalCase changes: acronyms, snake / kebab case, digits"""
-    tn = Selector('type_name', ['Inner', 'HTTPStatus', 'ISOCurrency', 'inner_type', 'inner-type', 'Inner2Go', 'innerType'])
-    gn = Selector('element_name', ['Note', 'HTTPNote', 'note_text'])
+    # 'date' / 'language': user types named like XSD builtins; 'xmlData': a name that starts with xml but is no xml: reference
+    tn = Selector('type_name', ['Inner', 'HTTPStatus', 'ISOCurrency', 'inner_type', 'inner-type', 'Inner2Go', 'innerType', 'date', 'language'])
+    gn = Selector('element_name', ['Note', 'HTTPNote', 'note_text', 'xmlData'])
     inner = CT(tn, Seq([El('b', 'xs:int')]))
     gel = GEl(gn, content=Seq([El('token', 'xs:string')]), doc='a documented global element with an anonymous type')
     tref = smap(lambda n: 't:' + n, tn.sym())
